@@ -269,10 +269,19 @@ class Extractor:
             for k, tt in enumerate(t.elts):
                 self.bind(tt, SV(v.e.subs(c, k), v.labels[1:]), st)
             return
-        if isinstance(t, ast.Tuple) and isinstance(v, tuple) and len(v) == len(t.elts):
+        if isinstance(t, ast.Tuple) and isinstance(v, (tuple, list)) and len(v) == len(t.elts):
             for tt, vv in zip(t.elts, v):
                 self.bind(tt, vv, st)
             return
+        if isinstance(t, ast.Tuple) and isinstance(v, SV) and v.labels and isinstance(v.labels[0].base, tuple) and v.labels[0].base[0] == "ordrow":
+            # unpacking along the rows of a literal order table: one array per requested order vector
+            rows = self.shared["order_tables"][v.labels[0].base[1]]
+            if len(rows) == len(t.elts):
+                for k, tt in enumerate(t.elts):
+                    elem = SV(v.e.subs(sp.Symbol("row"), k), v.labels[1:], v.ar)
+                    elem.row_origin = (v.labels[0], k, v.e)  # row k of this row-indexed array (np.stack can put the rows back)
+                    self.bind(tt, elem, st)
+                return
         self.err("assignment target", st)
 
     def loop(self, st):
@@ -392,7 +401,10 @@ class Extractor:
         if isinstance(e, ast.UnaryOp):
             v = self.expr(e.operand)
             if isinstance(e.op, ast.USub):
-                return SV(-v.e, v.labels, v.ar)
+                out_ = SV(-v.e, v.labels, v.ar)
+                if getattr(v, "row_origin", None) is not None:
+                    out_.row_origin = (v.row_origin[0], v.row_origin[1], -v.row_origin[2])
+                return out_
             if isinstance(e.op, ast.UAdd):
                 return v
             if isinstance(e.op, ast.Not) and isinstance(v, SV) and not v.labels:
@@ -529,6 +541,12 @@ class Extractor:
         ar = dict(l.ar)
         ar.update(r.ar)
         out = SV(v, labels)
+        if isinstance(op, (ast.Mult, ast.Div)):
+            for x_, y_, left in ((l, r, True), (r, l, False)):
+                ro = getattr(x_, "row_origin", None)
+                if ro is not None and not y_.labels and not y_.e.has(sp.Symbol("row")) and (left or isinstance(op, ast.Mult)):
+                    gen = ro[2] * y_.e if isinstance(op, ast.Mult) else ro[2] / y_.e
+                    out.row_origin = (ro[0], ro[1], gen)
         for k2, v2 in ar.items():
             out.ar.setdefault(k2, v2)
         views = [getattr(z, "table_view", None) or ((z.table, list(range(len(z.labels)))) if getattr(z, "table", None) is not None and z.labels is not None else None)
@@ -1209,6 +1227,32 @@ class Extractor:
                     t0, p0 = x.table_view
                     out.table_view = (t0, [p0[q] for q in pp])
                 return out
+        if short == "stack" and e.args:
+            items = self.expr(e.args[0])
+            ax = self.axis_arg(e)
+            ax = 0 if ax is None else ax
+            if isinstance(items, (tuple, list)) and items and all(isinstance(x, SV) and x.labels is not None for x in items):
+                labs = items[0].labels
+                for it in items[1:]:
+                    if [l.base for l in it.labels] != [l.base for l in labs]:
+                        raise LabelMismatch(f"`np.stack(...)` stacks arrays with different axes {labs} / {it.labels}", e)
+                ros = [getattr(x, "row_origin", None) for x in items]
+                if all(r_ is not None for r_ in ros) and len({id(r_[0]) for r_ in ros}) == 1 and [r_[1] for r_ in ros] == list(range(len(items))) \
+                        and len({sp.srepr(r_[2]) for r_ in ros}) == 1:
+                    rows_ = self.shared["order_tables"][ros[0][0].base[1]]
+                    if len(rows_) == len(items):
+                        # the rows of one row-indexed array, each treated alike, joined again in their order: the same array with the
+                        # row axis at the new position
+                        newl = list(labs)
+                        newl.insert(ax % (len(labs) + 1), ros[0][0])
+                        return SV(ros[0][2], newl)
+                sid = next(self.counter)
+                self.shared.setdefault("stacks", {})[sid] = [x.e for x in items]
+                n_new = len(labs) + 1
+                pos = ax % n_new
+                newl = list(labs)
+                newl.insert(pos, Lab(("stack", sid, len(items))))
+                return SV(Stack(sp.Integer(sid), sp.Symbol("stackrow")), newl)
         if short == "array" and e.args and isinstance(e.args[0], (ast.List, ast.ListComp, ast.Name)) and len(e.args) == 1 and not e.keywords:
             items = [self.expr(x) for x in e.args[0].elts] if isinstance(e.args[0], ast.List) else self.expr(e.args[0])
             if isinstance(items, list) and items and all(isinstance(x, SV) and x.labels is not None for x in items):
